@@ -75,7 +75,13 @@ theorem combine_dark_spec (i : Int) (f1 f2 r : Row) (h : Gen.combine_dark_factoi
   unfold Gen.combine_dark_factoid at h
   split at h
   · simp at h
-  · rename_i hc
+  split at h
+  · simp at h
+  rename_i hc
+  dsimp only at h
+  split at h
+  · simp at h
+  · skip
     simp only [Bool.not_eq_false, Bool.and_eq_true, decide_eq_true_eq, Bool.not_eq_eq_eq_not, Bool.not_true] at hc
     simp only [Py.factoid] at h
     split at h
@@ -99,8 +105,10 @@ theorem combine_dark_eval (i : Nat) (f1 f2 r : Row) (u : Nat → Int)
   generalize hZ : List.zipWith (fun m n => f1.getD i 0 * n + -f2.getD i 0 * m) f1 f2 = Z
   have hZl : Z.length = f1.length := by rw [← hZ]; simp [hl]
   have hZne : Z ≠ [] := by intro e; rw [e] at hZl; simp at hZl; omega
-  have e1 : ∀ c, Py.setIdx Z (-1) c = Z.set (Z.length - 1) c := by intro c; simp [Py.setIdx]
-  have e2 : Py.idx Z (-1) = Z.getD (Z.length - 1) 0 := by simp [Py.idx]
+  have e1 : ∀ c, Py.setIdx Z (-1) c = Z.set (Z.length - 1) c := by
+    intro c; simp [Py.setIdx]; intro he; exact absurd he hZne
+  have e2 : Py.idx Z (-1) = Z.getD (Z.length - 1) 0 := by
+    simp [Py.idx]; intro he; exact absurd he hZne
   rw [e1, e2]
   simp only [evalRow]
   rw [evalAt_setLast Z 0 u _ hZne, ← hZ]
